@@ -112,6 +112,8 @@ def gen_plan(rng, n_steps):
     plan = {}
     for step in range(n_steps):
         names = [b for b in ["photon", "charge", "signal"] if rng.random() < 0.5]
+        if rng.random() < 0.08:  # rare: every read of clustered charge re-JITs pyxel's binning kernel (~0.1 s)
+            names.append("clusters")
         if rng.random() < 0.6:
             names.append(rng.choice(["pixel", "pixel+"]))
         if rng.random() < 0.25:
